@@ -172,4 +172,300 @@ theorem attach_tail_spec (lp : Bool) (h : LHeap) (L : Nat) (l : List Nat) (a : O
     have : ¬ l.getLast? = some y := fun e => hyl (List.mem_of_getLast? e)
     simp [this, hy]
 
+
+/-! ### detach -/
+
+theorem getElem?_eq_some_getElem_iff {l : List Nat} (hn : l.Nodup) (m k : Nat) (hm : m < l.length) :
+    l[k]? = some l[m] ↔ k = m := by
+  constructor
+  · intro e
+    have hk : k < l.length := by
+      by_cases hh : k < l.length
+      · exact hh
+      · rw [List.getElem?_eq_none (by omega)] at e; cases e
+    rw [List.getElem?_eq_getElem hk] at e
+    exact idx_unique hn k m hk hm (Option.some.inj e)
+  · intro e; subst e; exact List.getElem?_eq_getElem hm
+
+theorem detach_eq (h : LHeap) (L : Nat) (l : List Nat) (j : Nat) (r : Repr h L l) (hj : j < l.length) :
+    detach h l[j] =
+      ((((h.setNext (lnk l L j).prev (lnk l L j).next).setPrev (lnk l L j).next (lnk l L j).prev).setNode l[j]
+          (some { lnk l L j with parent := none })).setList L
+        (some { head := if l.head? = some l[j] then (lnk l L j).next else l.head?,
+                tail := if l.getLast? = some l[j] then (lnk l L j).prev else l.getLast?, cnt := l.length - 1 })) := by
+  have hnode := r.link' j hj
+  have hjp : ∀ (k : Nat), l[k]? = some l[j] ↔ k = j := fun k => getElem?_eq_some_getElem_iff r.nodup j k hj
+  have hself : ((h.setNext (lnk l L j).prev (lnk l L j).next).setPrev (lnk l L j).next (lnk l L j).prev).nodes l[j] =
+      some (lnk l L j) := by
+    rw [setPrev_nodes, setNext_nodes]
+    have h1 : ¬ (lnk l L j).next = some l[j] := by
+      simp only [lnk]; intro e; have := (hjp (j + 1)).1 e; omega
+    have h2 : ¬ (lnk l L j).prev = some l[j] := by
+      simp only [lnk]; intro e
+      split at e
+      · cases e
+      · have := (hjp (j - 1)).1 e; omega
+    rw [if_neg h1, if_neg h2]; exact hnode
+  unfold detach
+  rw [hnode]
+  simp only [lnk, Option.bind_some, r.hdr]
+  simp only [lnk] at hself
+  rw [hself]
+
+theorem eraseIdx_head? (l : List Nat) (j : Nat) (hj : j < l.length) :
+    (l.eraseIdx j).head? = if j = 0 then l[1]? else l[0]? := by
+  rw [List.head?_eq_getElem?, List.getElem?_eraseIdx]
+  by_cases h0 : j = 0
+  · subst h0; simp
+  · rw [if_pos (by omega), if_neg h0]
+
+theorem eraseIdx_getLast? (l : List Nat) (j : Nat) (hj : j < l.length) :
+    (l.eraseIdx j).getLast? = if j + 1 = l.length then (if j = 0 then none else l[j - 1]?) else l[l.length - 1]? := by
+  rw [List.getLast?_eq_getElem?, List.getElem?_eraseIdx, List.length_eraseIdx, if_pos hj]
+  by_cases hl : j + 1 = l.length
+  · rw [if_pos hl]
+    by_cases h0 : j = 0
+    · rw [if_pos h0]
+      have : l.length - 1 - 1 = 0 := by omega
+      rw [this, if_neg (by omega)]
+      exact List.getElem?_eq_none (by omega)
+    · rw [if_neg h0, if_pos (by omega)]
+      congr 1; omega
+  · rw [if_neg hl, if_neg (by omega)]
+    congr 1; omega
+
+theorem detach_spec (h : LHeap) (L : Nat) (l : List Nat) (j : Nat) (r : Repr h L l) (hj : j < l.length) :
+    Repr (detach h l[j]) L (l.eraseIdx j) ∧
+      (∀ L', L' ≠ L → (detach h l[j]).lists L' = h.lists L') ∧
+      (∀ y, y ∉ l → (detach h l[j]).nodes y = h.nodes y) ∧
+      (detach h l[j]).nodes l[j] = some { lnk l L j with parent := none } := by
+  rw [detach_eq h L l j r hj]
+  have hjp : ∀ (m k : Nat) (hm : m < l.length), (l[k]? = some (l[m]'hm) ↔ k = m) :=
+    fun m k hm => getElem?_eq_some_getElem_iff r.nodup m k hm
+  -- every other node of the list after the operation, by its old index
+  have hnodes : ∀ m (hm : m < l.length), m ≠ j →
+      ((((h.setNext (lnk l L j).prev (lnk l L j).next).setPrev (lnk l L j).next (lnk l L j).prev).setNode l[j]
+          (some { lnk l L j with parent := none })).setList L
+        (some { head := if l.head? = some l[j] then (lnk l L j).next else l.head?,
+                tail := if l.getLast? = some l[j] then (lnk l L j).prev else l.getLast?, cnt := l.length - 1 })).nodes l[m] =
+      some { prev := if m = j + 1 then (lnk l L j).prev else (lnk l L m).prev,
+             next := if m + 1 = j then (lnk l L j).next else (lnk l L m).next, parent := some L } := by
+    intro m hm hmj
+    have hne : l[m] ≠ l[j] := fun e => hmj (idx_unique r.nodup m j hm hj e)
+    rw [setList_nodes, setNode_nodes, if_neg hne, setPrev_nodes, setNext_nodes, r.link' m hm]
+    have c1 : (lnk l L j).next = some l[m] ↔ m = j + 1 := by
+      simp only [lnk]; rw [hjp m (j + 1) hm]; omega
+    have c2 : (lnk l L j).prev = some l[m] ↔ m + 1 = j := by
+      simp only [lnk]
+      split
+      · rename_i h0; constructor
+        · intro e; cases e
+        · intro e; omega
+      · rw [hjp m (j - 1) hm]; omega
+    by_cases e1 : m = j + 1
+    · have e2 : ¬ m + 1 = j := by omega
+      rw [if_pos (c1.2 e1), if_neg (fun hh => e2 (c2.1 hh)), if_pos e1, if_neg e2]; rfl
+    · rw [if_neg (fun hh => e1 (c1.1 hh)), if_neg e1]
+      by_cases e2 : m + 1 = j
+      · rw [if_pos (c2.2 e2), if_pos e2]; rfl
+      · rw [if_neg (fun hh => e2 (c2.1 hh)), if_neg e2]; rfl
+  have hlast : l.getLast? = l[l.length - 1]? := List.getLast?_eq_getElem?
+  refine ⟨⟨?_, ?_, ?_⟩, ?_, ?_, ?_⟩
+  · simp only [setList_lists, ↓reduceIte, List.length_eraseIdx, hj]
+    rw [eraseIdx_head? l j hj, eraseIdx_getLast? l j hj]
+    congr 2
+    · rw [List.head?_eq_getElem?]
+      by_cases h0 : j = 0
+      · subst h0
+        rw [if_pos (List.getElem?_eq_getElem hj), if_pos rfl]; rfl
+      · have : ¬ l[0]? = some l[j] := by rw [hjp j 0 hj]; omega
+        rw [if_neg this, if_neg h0]
+    · rw [hlast]
+      by_cases hl : j + 1 = l.length
+      · have : l[l.length - 1]? = some l[j] := by rw [hjp j _ hj]; omega
+        rw [if_pos this, if_pos hl]; rfl
+      · have : ¬ l[l.length - 1]? = some l[j] := by rw [hjp j _ hj]; omega
+        rw [if_neg this, if_neg hl]
+  · exact r.nodup.sublist (List.eraseIdx_sublist _ _)
+  · intro i x hx
+    rw [List.getElem?_eraseIdx] at hx
+    by_cases hij : i < j
+    · rw [if_pos hij] at hx
+      have hi : i < l.length := by omega
+      rw [List.getElem?_eq_getElem hi] at hx
+      have := (Option.some.inj hx); subst this
+      rw [hnodes i hi (by omega), if_neg (by omega)]
+      congr 2
+      · simp only [lnk]
+        by_cases h0 : i = 0
+        · rw [if_pos h0, if_pos h0]
+        · rw [if_neg h0, if_neg h0, List.getElem?_eraseIdx, if_pos (by omega)]
+      · by_cases e2 : i + 1 = j
+        · rw [if_pos e2]; simp only [lnk]
+          rw [List.getElem?_eraseIdx, if_neg (by omega)]; congr 1; omega
+        · rw [if_neg e2]; simp only [lnk]
+          rw [List.getElem?_eraseIdx, if_pos (by omega)]
+    · rw [if_neg hij] at hx
+      have hi : i + 1 < l.length := by
+        by_cases hh : i + 1 < l.length
+        · exact hh
+        · rw [List.getElem?_eq_none (by omega)] at hx; cases hx
+      rw [List.getElem?_eq_getElem hi] at hx
+      have := (Option.some.inj hx); subst this
+      rw [hnodes (i + 1) hi (by omega)]
+      congr 2
+      · by_cases e1 : i + 1 = j + 1
+        · rw [if_pos e1]; simp only [lnk]
+          have hij' : i = j := by omega
+          by_cases h0 : j = 0
+          · rw [if_pos h0, if_pos (by omega)]
+          · rw [if_neg h0, if_neg (by omega), List.getElem?_eraseIdx, if_pos (by omega)]
+            congr 1; omega
+        · rw [if_neg e1]; simp only [lnk]
+          rw [if_neg (by omega), if_neg (by omega), List.getElem?_eraseIdx, if_neg (by omega)]
+          congr 1; omega
+      · rw [if_neg (by omega)]
+        simp only [lnk]
+        rw [List.getElem?_eraseIdx, if_neg (by omega)]
+  · intro L' hL; simp [hL]
+  · intro y hy
+    have hne : y ≠ l[j] := fun e => hy (e ▸ List.getElem_mem hj)
+    rw [setList_nodes, setNode_nodes, if_neg hne, setPrev_nodes, setNext_nodes]
+    have c1 : ¬ (lnk l L j).next = some y := by
+      simp only [lnk]; intro e; exact hy (List.mem_of_getElem? e)
+    have c2 : ¬ (lnk l L j).prev = some y := by
+      simp only [lnk]; intro e
+      split at e
+      · cases e
+      · exact hy (List.mem_of_getElem? e)
+    rw [if_neg c1, if_neg c2]
+  · rw [setList_nodes, setNode_nodes, if_pos rfl]
+
+
+/-! ### attach before a node that is not the head (repaired code: `linkPrev = true`) -/
+
+theorem attachAt_before_eq (lp : Bool) (h : LHeap) (L : Nat) (l : List Nat) (j n : Nat) (nd0 : LNode)
+    (r : Repr h L l) (hj : j < l.length) (hj0 : 0 < j) (hn : h.nodes n = some nd0) (hnl : n ∉ l) :
+    attachAt lp h L .before (some l[j]) n =
+      (let h' := (h.setNode n (some { prev := l[j - 1]?, next := some l[j], parent := some L })).setPrev (some l[j]) (some n)
+       (if lp then h'.setNext l[j - 1]? (some n) else h')).setList L
+        (some { head := l.head?, tail := l.getLast?, cnt := l.length + 1 }) := by
+  have hhead : ¬ (some l[j] = l.head?) := by
+    rw [List.head?_eq_getElem?]; intro e
+    have := (getElem?_eq_some_getElem_iff r.nodup j 0 hj).1 e.symm
+    omega
+  have hh0 : l.head? ≠ none := by
+    rw [List.head?_eq_getElem?, List.getElem?_eq_getElem (by omega)]; simp
+  have hl0 : l.getLast? ≠ none := by
+    rw [List.getLast?_eq_getElem?, List.getElem?_eq_getElem (by omega)]; simp
+  have hne : l[j] ≠ n := fun e => hnl (e ▸ List.getElem_mem hj)
+  unfold attachAt
+  rw [r.hdr, hn]
+  simp only [hhead, false_or, reduceCtorEq, and_false, ↓reduceIte, Option.bind_some, hne, r.link' j hj, lnk,
+    show ¬ j = 0 by omega, hh0, hl0]
+
+theorem insertIdx_nodup (l : List Nat) (j n : Nat) (hn : l.Nodup) (hnl : n ∉ l) (hj : j ≤ l.length) :
+    (l.insertIdx j n).Nodup := by
+  have hp : (l.insertIdx j n).Perm (n :: l) := List.perm_insertIdx n l hj
+  exact hp.nodup_iff.2 (List.nodup_cons.2 ⟨hnl, hn⟩)
+
+theorem attach_before_spec (h : LHeap) (L : Nat) (l : List Nat) (j n : Nat) (nd0 : LNode)
+    (r : Repr h L l) (hj : j < l.length) (hj0 : 0 < j) (hn : h.nodes n = some nd0) (hnl : n ∉ l) :
+    Repr (attachAt true h L .before (some l[j]) n) L (l.insertIdx j n) ∧
+      (∀ L', L' ≠ L → (attachAt true h L .before (some l[j]) n).lists L' = h.lists L') ∧
+      (∀ y, y ≠ n → y ∉ l → (attachAt true h L .before (some l[j]) n).nodes y = h.nodes y) := by
+  rw [attachAt_before_eq true h L l j n nd0 r hj hj0 hn hnl]
+  simp only [↓reduceIte]
+  have hjp : ∀ (m k : Nat) (hm : m < l.length), (l[k]? = some (l[m]'hm) ↔ k = m) :=
+    fun m k hm => getElem?_eq_some_getElem_iff r.nodup m k hm
+  have hnodes : ∀ m (hm : m < l.length),
+      ((((h.setNode n (some { prev := l[j - 1]?, next := some l[j], parent := some L })).setPrev (some l[j]) (some n)).setNext
+          l[j - 1]? (some n)).setList L (some { head := l.head?, tail := l.getLast?, cnt := l.length + 1 })).nodes l[m] =
+      some { prev := if m = j then some n else (lnk l L m).prev,
+             next := if m + 1 = j then some n else (lnk l L m).next, parent := some L } := by
+    intro m hm
+    have hne : l[m] ≠ n := fun e => hnl (e ▸ List.getElem_mem hm)
+    rw [setList_nodes, setNext_nodes, setPrev_nodes, setNode_nodes, if_neg hne, r.link' m hm]
+    have c1 : (some l[j] = some l[m]) ↔ m = j := by
+      constructor
+      · intro e; exact idx_unique r.nodup m j hm hj (Option.some.inj e).symm
+      · intro e; subst e; rfl
+    have c2 : l[j - 1]? = some l[m] ↔ m + 1 = j := by rw [hjp m (j - 1) hm]; omega
+    by_cases e1 : m = j
+    · have e2 : ¬ m + 1 = j := by omega
+      rw [if_neg (fun hh => e2 (c2.1 hh)), if_pos (c1.2 e1), if_pos e1, if_neg e2]; rfl
+    · rw [if_neg (fun hh => e1 (c1.1 hh)), if_neg e1]
+      by_cases e2 : m + 1 = j
+      · rw [if_pos (c2.2 e2), if_pos e2]; rfl
+      · rw [if_neg (fun hh => e2 (c2.1 hh)), if_neg e2]; rfl
+  have hnode_n : ((((h.setNode n (some { prev := l[j - 1]?, next := some l[j], parent := some L })).setPrev (some l[j]) (some n)).setNext
+          l[j - 1]? (some n)).setList L (some { head := l.head?, tail := l.getLast?, cnt := l.length + 1 })).nodes n =
+      some { prev := l[j - 1]?, next := some l[j], parent := some L } := by
+    rw [setList_nodes, setNext_nodes, setPrev_nodes, setNode_nodes, if_pos rfl]
+    have c1 : ¬ l[j - 1]? = some n := fun e => hnl (List.mem_of_getElem? e)
+    have c2 : ¬ (some l[j] = some n) := fun e => hnl ((Option.some.inj e) ▸ List.getElem_mem hj)
+    rw [if_neg c1, if_neg c2]
+  refine ⟨⟨?_, ?_, ?_⟩, ?_, ?_⟩
+  · simp only [setList_lists, ↓reduceIte]
+    congr 2
+    · rw [List.head?_eq_getElem?, List.head?_eq_getElem?, List.getElem?_insertIdx, if_pos hj0]
+    · have hlen : (l.insertIdx j n).length = l.length + 1 := by rw [List.length_insertIdx, if_pos (by omega)]
+      rw [List.getLast?_eq_getElem?, List.getLast?_eq_getElem?, hlen, List.getElem?_insertIdx,
+        if_neg (by omega), if_neg (by omega)]
+      congr 1
+    · rw [List.length_insertIdx, if_pos (by omega)]
+  · exact insertIdx_nodup l j n r.nodup hnl (by omega)
+  · intro i x hx
+    rw [List.getElem?_insertIdx] at hx
+    by_cases hij : i < j
+    · rw [if_pos hij] at hx
+      have hi : i < l.length := by omega
+      rw [List.getElem?_eq_getElem hi] at hx
+      have := (Option.some.inj hx); subst this
+      rw [hnodes i hi, if_neg (by omega)]
+      congr 2
+      · simp only [lnk]
+        by_cases h0 : i = 0
+        · rw [if_pos h0, if_pos h0]
+        · rw [if_neg h0, if_neg h0, List.getElem?_insertIdx, if_pos (by omega)]
+      · by_cases e2 : i + 1 = j
+        · rw [if_pos e2, List.getElem?_insertIdx, if_neg (by omega), if_pos e2, if_pos (by omega)]
+        · rw [if_neg e2]; simp only [lnk]
+          rw [List.getElem?_insertIdx, if_pos (by omega)]
+    · rw [if_neg hij] at hx
+      by_cases hie : i = j
+      · rw [if_pos hie, if_pos (by omega)] at hx
+        have := (Option.some.inj hx); subst this
+        subst hie
+        rw [hnode_n]
+        congr 2
+        · rw [if_neg (by omega), List.getElem?_insertIdx, if_pos (by omega)]
+        · rw [List.getElem?_insertIdx, if_neg (by omega), if_neg (by omega)]
+          simp only [Nat.add_sub_cancel]
+          exact (List.getElem?_eq_getElem hj).symm
+      · rw [if_neg hie] at hx
+        have hi : i - 1 < l.length := by
+          by_cases hh : i - 1 < l.length
+          · exact hh
+          · rw [List.getElem?_eq_none (by omega)] at hx; cases hx
+        rw [List.getElem?_eq_getElem hi] at hx
+        have := (Option.some.inj hx); subst this
+        rw [hnodes (i - 1) hi]
+        congr 2
+        · have hi0 : ¬ i = 0 := by omega
+          by_cases e1 : i - 1 = j
+          · rw [if_pos e1, if_neg hi0, List.getElem?_insertIdx, if_neg (by omega), if_pos e1, if_pos (by omega)]
+          · rw [if_neg e1, if_neg hi0]; simp only [lnk]
+            rw [if_neg (by omega), List.getElem?_insertIdx, if_neg (by omega), if_neg e1]
+        · rw [if_neg (by omega)]
+          simp only [lnk]
+          rw [List.getElem?_insertIdx, if_neg (by omega), if_neg (by omega)]
+          congr 1; omega
+  · intro L' hL; simp [hL]
+  · intro y hy hyl
+    rw [setList_nodes, setNext_nodes, setPrev_nodes, setNode_nodes, if_neg hy]
+    have c1 : ¬ l[j - 1]? = some y := fun e => hyl (List.mem_of_getElem? e)
+    have c2 : ¬ (some l[j] = some y) := fun e => hyl ((Option.some.inj e) ▸ List.getElem_mem hj)
+    rw [if_neg c1, if_neg c2]
+
 end Cares.Dsa.LHeap
